@@ -43,6 +43,53 @@ mod vx_kani {
         assert!(r.is_err());
     }
 
+    // the two point checks of the key parser, with the curve operations replaced by switches the harness controls: the point that
+    // "decompresses" is the base point (neither neutral nor of small order), so a weaker test substituted for is_small_order
+    // (e.g. is_identity, evaluated for real) lets the key through and the harness fails
+    static mut SMALL: bool = false;
+    static mut DECOMP: bool = true;
+    static mut SEEN: [u8; 32] = [0u8; 32];
+    fn sw_decompress(_c: &CompressedEdwardsY) -> Option<EdwardsPoint> {
+        if unsafe { DECOMP } {
+            Some(curve25519_dalek::constants::ED25519_BASEPOINT_POINT)
+        } else {
+            None
+        }
+    }
+    fn sw_small_order(_p: &EdwardsPoint) -> bool {
+        unsafe { SMALL }
+    }
+    fn sw_pk_from_bytes(b: &[u8; 32]) -> Result<ed25519_PublicKey, ed25519_dalek::SignatureError> {
+        unsafe { SEEN = *b };
+        Ok(ed25519_PublicKey::default())
+    }
+    /// VRFPublicKey::try_from on 32 bytes: Err whenever the bytes are not a curve point or the point is of small order; otherwise
+    /// the key is built from exactly the bytes given (complete over the 32 bytes and the two outcomes of the curve operations)
+    #[kani::proof]
+    #[kani::unwind(44)]
+    #[kani::stub(CompressedEdwardsY::decompress, sw_decompress)]
+    #[kani::stub(EdwardsPoint::is_small_order, sw_small_order)]
+    #[kani::stub(ed25519_dalek::VerifyingKey::from_bytes, sw_pk_from_bytes)]
+    #[kani::stub(alloc::fmt::format, stub_format)]
+    fn c18_public_key_point_checks() {
+        let buf: [u8; 32] = kani::any();
+        unsafe {
+            SMALL = kani::any();
+            DECOMP = kani::any();
+        }
+        let r = VRFPublicKey::try_from(&buf[..]);
+        unsafe {
+            if !DECOMP || SMALL {
+                assert!(r.is_err());
+            } else {
+                assert!(r.is_ok());
+                let k: usize = kani::any();
+                kani::assume(k < 32);
+                assert!(SEEN[k] == buf[k]);
+            }
+        }
+    }
+
     /// Proof::try_from refuses every byte string whose length is not 80 (lengths 0..=90 symbolic) without panicking
     #[kani::proof]
     #[kani::unwind(94)]
